@@ -47,18 +47,23 @@ fn other_key(pool: &[KeyInfo], r: &mut Rng, avoid: &[usize]) -> usize {
 }
 
 /// Inject one fault of the family relevant to `prop` into a valid scenario.
-fn inject(prop: &str, s: &mut Scenario, r: &mut Rng, pool: &[KeyInfo]) -> Option<Fault> {
+pub(crate) fn inject(prop: &str, s: &mut Scenario, r: &mut Rng, pool: &[KeyInfo]) -> Option<Fault> {
     let kinds: &[&str] = match prop {
-        "C01" => &["caller_empty", "caller_superset", "caller_disjoint", "caller_alias", "owner_sig_missing", "owner_sig_corrupt", "owner_sig_mislabel", "owner_sig_duplicated", "owner_sig_duplicated_apart", "layout_tampered", "not_a_layout", "extra_sig", "none"],
+        "C01" => &["caller_empty", "caller_superset", "caller_disjoint", "caller_alias", "owner_sig_missing", "owner_sig_corrupt", "owner_sig_mislabel", "owner_sig_duplicated", "owner_sig_duplicated_apart", "layout_tampered", "layout_command_resplit", "not_a_layout", "extra_sig", "none"],
         "C06" => &["expired_1s", "expired_long", "expires_now", "expires_plus1", "offset_notation", "offset_expired", "sub_expired", "none"],
-        "C02" => &["link_removed", "link_wrong_signer", "link_mislabel", "link_tampered", "link_corrupt", "link_unauthorized", "key_not_in_table", "link_garbage", "link_cosigned_forgery", "threshold_zero_nolinks", "threshold_zero_onelink", "threshold_raised", "link_wrong_type", "none"],
+        "C02" => &["link_removed", "link_wrong_signer", "link_mislabel", "link_tampered", "link_corrupt", "link_unauthorized", "key_not_in_table", "link_garbage", "link_misfiled", "link_cosigned_forgery", "threshold_zero_nolinks", "threshold_zero_onelink", "threshold_raised", "link_wrong_type", "none"],
         "C07" => &["disagree_product_digest", "disagree_material_path", "disagree_extra_entry", "disagree_t1", "agree_extra_differs", "none"],
-        "C13" => &["differing_links_t1", "differing_links_t1_rules", "none", "link_removed"],
+        "C13" => &["differing_links_t1", "differing_links_t1_rules", "none", "link_removed", "disagree_product_digest", "disagree_extra_entry"],
         "C08" => &["insp_exit", "insp_notfound", "insp_rule", "pre_expired", "pre_badsig", "pre_link_removed", "pre_rule", "pre_disagree", "none"],
-        "C15" => &["no_steps", "no_steps_inner", "sub_wrong_signer", "sub_expired", "sub_missing_link", "sub_links_in_parent", "sub_rule", "sub_unauthorized_inner", "sub_tampered", "none"],
+        "C15" => &["no_steps", "no_steps_inner", "sub_wrong_signer", "sub_expired", "sub_missing_link", "sub_links_in_parent", "sub_rule", "sub_unauthorized_inner", "sub_tampered", "sub_insp_exit", "sub_insp_rule", "none"],
         _ => &["none"],
     };
     let kind = *r.pick(kinds);
+    inject_kind(prop, kind, s, r, pool)
+}
+
+/// one fault of the catalogue, by name
+pub(crate) fn inject_kind(prop: &str, kind: &str, s: &mut Scenario, r: &mut Rng, pool: &[KeyInfo]) -> Option<Fault> {
     let now = s.now;
     let owners = s.caller_keys.clone();
     match kind {
@@ -112,6 +117,17 @@ fn inject(prop: &str, s: &mut Scenario, r: &mut Rng, pool: &[KeyInfo]) -> Option
             s.block.sigs.push(a);
             Some(("C01", "one owner's signature is repeated in place of a missing owner signature".into(), true))
         }
+        "layout_command_resplit" => {
+            // after signing, the argument boundaries of an inspection's command are moved (same words)
+            let orig = s.block.meta.clone();
+            let l = layout_mut(&mut s.block)?;
+            if l.inspect.iter().all(|i| i.script.is_none()) {
+                return None;
+            }
+            l.resplit_commands = true;
+            s.block.signed_over = Some(Box::new(orig));
+            Some(("C01", "the layout was changed after it was signed (command argument boundaries)".into(), true))
+        }
         "layout_tampered" => {
             let orig = s.block.meta.clone();
             let l = layout_mut(&mut s.block)?;
@@ -161,7 +177,7 @@ fn inject(prop: &str, s: &mut Scenario, r: &mut Rng, pool: &[KeyInfo]) -> Option
             }
         }
         // ---------------------------------------------------------------- C02
-        "link_removed" | "link_wrong_signer" | "link_mislabel" | "link_tampered" | "link_corrupt" | "link_unauthorized" | "key_not_in_table" | "link_garbage" | "link_wrong_type" | "pre_link_removed" => {
+        "link_removed" | "link_wrong_signer" | "link_mislabel" | "link_tampered" | "link_corrupt" | "link_unauthorized" | "key_not_in_table" | "link_garbage" | "link_misfiled" | "link_wrong_type" | "pre_link_removed" => {
             let l = layout_mut(&mut s.block)?.clone();
             let si = r.below(l.steps.len());
             trim_spares(&l, &mut s.dir, si);
@@ -180,6 +196,27 @@ fn inject(prop: &str, s: &mut Scenario, r: &mut Rng, pool: &[KeyInfo]) -> Option
                 "link_garbage" => {
                     s.dir.files[fi].1 = SFile::Garbage;
                     desc = "a link file cannot be parsed";
+                }
+                "link_misfiled" => {
+                    // an honest, validly signed, authorized link - but under a file name whose key id
+                    // prefix is not its signer's (another functionary's, an unknown key's, or junk)
+                    if !is_link {
+                        return None;
+                    }
+                    let other = match r.below(3) {
+                        0 => l.steps[si].pubkeys.iter().cloned().find(|&k| k != owner).map(|k| prefix8(pool, k)),
+                        1 => Some(prefix8(pool, other_key(pool, r, &l.keys))),
+                        _ => Some("0a1b2c3d".to_string()),
+                    }?;
+                    if other == short {
+                        return None;
+                    }
+                    let nn = format!("{}.{}.link", l.steps[si].name, other);
+                    if s.dir.files.iter().any(|f| f.0 == nn) {
+                        return None;
+                    }
+                    s.dir.files[fi].0 = nn;
+                    desc = "the only evidence is filed under a key id prefix that its signature does not carry";
                 }
                 "link_unauthorized" => {
                     // signed (validly) by a key of the layout that is authorized for another step only
@@ -228,7 +265,7 @@ fn inject(prop: &str, s: &mut Scenario, r: &mut Rng, pool: &[KeyInfo]) -> Option
                             }
                             _ => {
                                 // "wrong type": a layout (validly signed by the functionary) that cannot verify
-                                b.meta = SMeta::Layout(SLayout { expires: now - Duration::days(1), keys: vec![], steps: vec![], inspect: vec![], readme: String::new(), offset_min: None });
+                                b.meta = SMeta::Layout(SLayout { expires: now - Duration::days(1), keys: vec![], steps: vec![], inspect: vec![], readme: String::new(), offset_min: None, resplit_commands: false });
                                 desc = "the evidence is an (expired) layout instead of a link";
                             }
                         }
@@ -459,6 +496,19 @@ fn inject(prop: &str, s: &mut Scenario, r: &mut Rng, pool: &[KeyInfo]) -> Option
                         layout_mut(b)?.expires = now - Duration::seconds(1);
                         desc = "the sub-layout is expired".into();
                     }
+                    "sub_insp_exit" | "sub_insp_rule" => {
+                        // the sub-layout's own inspection fails: its command exits non-zero, or one of its
+                        // artifact rules is violated by what the command leaves behind
+                        let il = layout_mut(b)?;
+                        let nm = format!("subinsp{}", r.next() % 1_000_000_000);
+                        if k == "sub_insp_exit" {
+                            il.inspect.push(SInsp { name: nm.clone(), mats: vec![ArtifactRule::Allow(vp("*"))], prods: vec![ArtifactRule::Allow(vp("*"))], script: Some(script(&subname, &nm, 3, "")) });
+                            desc = "an inspection of the sub-layout exits with a non-zero status".into();
+                        } else {
+                            il.inspect.push(SInsp { name: nm.clone(), mats: vec![ArtifactRule::Allow(vp("*"))], prods: vec![ArtifactRule::Disallow(vp("*"))], script: Some(script(&subname, &nm, 0, "echo x > made-in-sub;")) });
+                            desc = "an artifact rule of an inspection of the sub-layout fails".into();
+                        }
+                    }
                     "sub_rule" => {
                         let il = layout_mut(b)?;
                         il.steps[0].prods = vec![ArtifactRule::Disallow(vp("*"))];
@@ -504,7 +554,7 @@ fn inject(prop: &str, s: &mut Scenario, r: &mut Rng, pool: &[KeyInfo]) -> Option
                     _ => return None,
                 }
             }
-            Some(("C15", format!("{} (step {})", desc, l.steps[si].name), true))
+            Some((if k == "sub_expired" && prop == "C06" { "C06" } else { "C15" }, format!("{} (step {})", desc, l.steps[si].name), true))
         }
         _ => None,
     }
@@ -526,7 +576,7 @@ pub fn run(cfg: &Cfg, prop: &str) {
             _ => r.below(2),
         };
         let allow_insp = matches!(prop, "C08") || r.chance(1, 4);
-        let mut g = Gen { r: &mut r, pool: &pool, insp_counter, force_delegate: prop == "C15", multi_party: prop == "C07" && i % 3 != 0, co_delegate: prop == "C15" && i % 3 == 0 };
+        let mut g = Gen { r: &mut r, pool: &pool, insp_counter, force_delegate: prop == "C15" || (prop == "C06" && i % 3 == 0), multi_party: (prop == "C07" && i % 3 != 0) || (prop == "C13" && i % 3 == 1), co_delegate: prop == "C15" && i % 3 == 0 };
         let mut s = g.valid(depth, allow_insp);
         insp_counter = g.insp_counter;
         if prop == "C08" {
